@@ -4,6 +4,8 @@ Input : {"scenarios": [scenario...]}
            | {"id": n, "kind": "threads", "threads": [[step...], ...], "sync": [[ta, k, tb], ...]}
            | {"id": n, "kind": "gc", "n": builds, "prog": program}
   step = {"k": "build", "prog": P, "key": str} | {"k": "probe"} | {"k": "junk", "n": int} | {"k": "desc", "prog": P}
+       | {"k": "annotate", "n": int}   mutate in place the variants / metadata dictionaries of the definition this thread
+         built last (a variant for one of its own controls, a note, a spec)
        | {"k": "use", "prog": P, "key": str, "how": add|store|new_from|read_stream|descread|libread,
           "variant": valid|trunc|badclass|badrate|dupname, "cut": permille}   build P, then use the OTHER entry points
          that take the build lock and install a (dummy) current definition: the read-back of add/store/new_from, or the
@@ -12,7 +14,7 @@ Input : {"scenarios": [scenario...]}
   sync [ta, k, tb]: when thread ta reaches instruction k of its FIRST build it releases thread tb and waits until tb
   has announced its first attempt (plus a grace period so that tb really is blocked on the build lock).
 Output: {"traces": [{"id", "kind", "ev": [event...]}]}; every event has all fields (uniform records for TLC):
-  e attempt|enter|mid|leave|exit|rattempt|read|probe|gc   t thread   b build number   f program key
+  e attempt|enter|mid|leave|exit|rattempt|read|annotate|probe|gc   t thread   b build number   f program key
   mine/locked (inside the function: the global context is this definition / the build lock is held)
   raised, err, sha, lost (units of this function attached elsewhere)   ctx_none, lock_free, orphan, wrap (probe:
   SynthDef.wrap worked outside a build)   read: f = how:variant, raised, err
@@ -72,6 +74,7 @@ class Runner:
         self.mutex = threading.Lock()
         self.nb = 0
         self.threaded = False
+        self.last_sd = {}
         self.desc = False         # also describe every finished definition (C02's concurrent section)
         self.recs = None          # keep the full build records
         self._tmp = None
@@ -104,8 +107,12 @@ class Runner:
             if idx == n or idx == -1:       # end of the function body (normal, or about to raise)
                 self.emit(e='leave', t=t, b=bno, f=key, **state())
 
+        def post2(sd, data):
+            self.last_sd[t] = (sd, prog, key)          # the finished definition object (for `annotate` steps)
+            return post(sd, data) if post is not None else None
+
         try:
-            rec = self.b.build(prog, hook=hook, post=post, desc=self.desc)
+            rec = self.b.build(prog, hook=hook, post=post2, desc=self.desc)
         except Exception as e:
             # anything unexpected around a build is an observation (a build that did not deliver), never a harness crash
             rec = dict(raised=1, err='unexpected-' + type(e).__name__, stage='', sha='', lost=0)
@@ -188,6 +195,27 @@ class Runner:
             out = dict(raised=2, err='not-built')
         self.emit(e='read', t=t, f=s['how'] + ':' + s.get('variant', 'valid'), raised=out['raised'], err=out['err'])
 
+    def annotate(self, t, s):
+        """mutate, in place, the dictionaries a FINISHED definition exposes through its public `variants` / `metadata`
+        properties (a variant for one of its own controls, a metadata note, a spec): legal use of the library that
+        must not reach any other definition"""
+        ent = self.last_sd.get(t)
+        if ent is None:
+            return
+        sd, prog, key = ent
+        err = ''
+        try:
+            if prog['ctl']:
+                c = prog['ctl'][s.get('n', 0) % len(prog['ctl'])]
+                sd.variants['v%d' % (s.get('n', 0) % 7)] = {c['n']: (s.get('n', 0) % 5) + 1}
+            sd.metadata['note%d' % (s.get('n', 0) % 3)] = s.get('n', 0)
+            if prog['ctl']:
+                from sc3.synth.spec import spec
+                sd.metadata.setdefault('specs', {})[prog['ctl'][0]['n']] = spec('freq')
+        except Exception as e:
+            err = type(e).__name__
+        self.emit(e='annotate', t=t, f=key, raised=1 if err else 0, err=err)
+
     def tmpdir(self):
         import tempfile
         if self._tmp is None:
@@ -206,6 +234,8 @@ class Runner:
                 self.use(t, s)
             elif s['k'] == 'readback':
                 self.readback(t, s)
+            elif s['k'] == 'annotate':
+                self.annotate(t, s)
             elif s['k'] == 'probe':
                 # a probe takes the lock for an instant and creates a unit: only meaningful (and only harmless)
                 # while no other thread can be building, so threaded scenarios probe once, after the join
